@@ -81,11 +81,34 @@ fn base_alphabet() -> Vec<Op> {
     ]
 }
 
+
+fn nontrivial_c03(c: &Cover, h: &[Op]) -> bool {
+    (c.chunk_switch || c.unwound || c.depth2) && h.iter().any(|o| matches!(o, Op::Enter(_) | Op::TryWith { .. } | Op::Reset | Op::ResetToStart))
+}
+fn nontrivial_c05(c: &Cover, _h: &[Op]) -> bool {
+    c.chunk_switch
+}
+fn nontrivial_c13(c: &Cover, h: &[Op]) -> bool {
+    c.reclaim || c.inplace_realloc || h.iter().any(|o| matches!(o, Op::Dealloc { .. } | Op::Shrink { .. } | Op::ShrinkSlice { .. }))
+}
+fn nontrivial_c14(_c: &Cover, h: &[Op]) -> bool {
+    h.iter().any(|o| matches!(o, Op::Orig(_))) || (h.iter().any(|o| matches!(o, Op::Enter(Region::Claim))) && h.iter().any(|o| matches!(o, Op::Exit | Op::ExitUnwind)))
+}
+fn nontrivial_c18(_c: &Cover, h: &[Op]) -> bool {
+    h.iter().any(|o| matches!(o, Op::Enter(Region::Aligned(_) | Region::ScopedAligned(_)))) && h.iter().any(|o| matches!(o, Op::Alloc { .. } | Op::AllocRem { .. }))
+}
+fn nontrivial_c07(c: &Cover, _h: &[Op]) -> bool {
+    c.chunk_switch || c.alloc_failed
+}
+
+const ALL_MIN_ALIGNS: [usize; 5] = [1, 2, 4, 8, 16];
+
 pub fn spaces<'a>(prop: &'a str, thorough: bool, deadline: Instant, threads: usize) -> Vec<Space<'a>> {
     let (groups, probes) = groups_of(prop);
     let cfgs = configs::all(thorough);
     let z = SlabCfg::default();
     let og = SlabCfg { phase: 48, overgrant: 40, fail_mask: 0 };
+    let og2 = SlabCfg { phase: 4080, overgrant: 100, fail_mask: 0 };
     let mk = |alphabet: Vec<Op>, depth: usize, params: Vec<RunParams>, fault: FaultMode, nontrivial: fn(&Cover, &[Op]) -> bool, rule: &'a str, floor: u64| Space {
         prop,
         alphabet,
@@ -102,17 +125,316 @@ pub fn spaces<'a>(prop: &'a str, thorough: bool, deadline: Instant, threads: usi
         max_violations: 8,
         floor,
     };
+    let d = |q: usize, t: usize| if thorough { t } else { q };
     match prop {
-        "C01" | "C02" | "C10" => {
-            let depth = if thorough { 5 } else { 4 };
+        "C01" => vec![mk(
+            base_alphabet(),
+            d(4, 5),
+            params(&[Handle::Direct, Handle::WoShrink, Handle::Dyn], &[Ctor::TryNew, Ctor::Unallocated], &[z, og]),
+            FaultMode::None,
+            nontrivial_c01,
+            "every enabled history over the alphabet up to the depth bound, per configuration and run-parameter set; non-trivial = the history performed a realloc (in place or moved), switched chunks, or had >= 2 non-empty live blocks at some point",
+            1000,
+        )],
+        "C02" => {
+            // emphasis: alignment-changing reallocations, wrappers, zeroing, prepared allocations that move data
+            let a = vec![
+                al(1, 1),
+                al(16, 1),
+                al(24, 8),
+                al(40, 32),
+                Op::Alloc { size: 24, align: 8, zeroed: true },
+                Op::AllocRem { extra: 1, align: 1 },
+                Op::Grow { sel: Sel::Newest, delta: 8, align: 0, zeroed: true },
+                Op::Grow { sel: Sel::Newest, delta: 0, align: 32, zeroed: false },
+                Op::Grow { sel: Sel::Second, delta: 16, align: 0, zeroed: true },
+                Op::Grow { sel: Sel::Oldest, delta: 1, align: 16, zeroed: false },
+                Op::GrowRem { sel: Sel::Newest, extra: 1 },
+                Op::Shrink { sel: Sel::Newest, to: ShrinkTo::Half, align: 0 },
+                Op::Shrink { sel: Sel::Newest, to: ShrinkTo::Half, align: 32 },
+                Op::Shrink { sel: Sel::Newest, to: ShrinkTo::MinusOne, align: 16 },
+                Op::Shrink { sel: Sel::Second, to: ShrinkTo::Half, align: 32 },
+                Op::Shrink { sel: Sel::Newest, to: ShrinkTo::Zero, align: 0 },
+                Op::ShrinkSlice { sel: Sel::Newest, to: ShrinkTo::Half },
+                Op::Typed { op: TypedOp::SliceU64(3), try_: true },
+                Op::Typed { op: TypedOp::AllocSliceCopyU8(5), try_: false },
+                Op::Dealloc { sel: Sel::Newest },
+                Op::Dealloc { sel: Sel::Second },
+                Op::Split { sel: Sel::Newest },
+                Op::Prep { size: 16, align: 8, commit: Commit::Half, rev: false },
+                Op::Prep { size: 16, align: 8, commit: Commit::Half, rev: true },
+                Op::PrepSlice { elem: 8, min_cap: 3, commit: Commit::Half, rev: false, try_: false },
+                Op::PrepSlice { elem: 3, min_cap: 4, commit: Commit::Half, rev: true, try_: true },
+                Op::Enter(Region::Scoped),
+                Op::Enter(Region::Claim),
+                Op::Exit,
+                Op::TryWith { mutable: false, ok: true, inner: Some((3, 1)), try_: false },
+            ];
             vec![mk(
-                base_alphabet(),
-                depth,
-                params(&[Handle::Direct, Handle::WoShrink, Handle::Dyn], &[Ctor::TryNew, Ctor::Unallocated], &[z, og]),
+                a,
+                d(4, 5),
+                params(&[Handle::Direct, Handle::WoShrink, Handle::WoShrinkWoDealloc, Handle::WoDealloc, Handle::Ref], &[Ctor::TryNew], &[z, og]),
                 FaultMode::None,
                 nontrivial_c01,
-                "every enabled history over the alphabet up to the depth bound, per configuration and run-parameter set; non-trivial = the history performed a realloc (in place or moved), switched chunks, or had >= 2 non-empty live blocks at some point",
+                "every enabled history over the alphabet up to the depth bound, per configuration x handle kind x substrate; non-trivial = the history performed a realloc (in place or moved), switched chunks, or had >= 2 non-empty live blocks",
                 1000,
+            )]
+        }
+        "C10" => {
+            let mut a = base_alphabet();
+            a.retain(|o| !matches!(o, Op::Split { .. } | Op::Prep { rev: true, .. }));
+            a.push(Op::Enter(Region::Aligned(1)));
+            a.push(Op::Enter(Region::Aligned(16)));
+            a.push(Op::Enter(Region::ByValue));
+            a.push(Op::Enter(Region::Claim));
+            a.push(Op::TryWith { mutable: true, ok: false, inner: None, try_: false });
+            vec![mk(
+                a,
+                d(4, 5),
+                params(&[Handle::Direct, Handle::Dyn, Handle::DynCore, Handle::RefRef], &[Ctor::TryNew, Ctor::Unallocated], &[z, og2]),
+                FaultMode::None,
+                nontrivial_c01,
+                "every enabled history over the alphabet up to the depth bound, per configuration and run-parameter set; non-trivial = the history performed a realloc, switched chunks, or had >= 2 non-empty live blocks",
+                1000,
+            )]
+        }
+        "C13" => {
+            let a = vec![
+                al(1, 1),
+                al(3, 1),
+                al(8, 8),
+                al(16, 16),
+                al(24, 8),
+                al(6, 2),
+                al(0, 1),
+                Op::AllocRem { extra: 1, align: 1 },
+                Op::Typed { op: TypedOp::SliceU64(2), try_: true },
+                Op::Typed { op: TypedOp::SliceU8(5), try_: true },
+                Op::Grow { sel: Sel::Newest, delta: 8, align: 0, zeroed: false },
+                Op::Grow { sel: Sel::Newest, delta: 1, align: 0, zeroed: false },
+                Op::Grow { sel: Sel::Second, delta: 8, align: 0, zeroed: false },
+                Op::Shrink { sel: Sel::Newest, to: ShrinkTo::Half, align: 0 },
+                Op::Shrink { sel: Sel::Second, to: ShrinkTo::Half, align: 0 },
+                Op::Shrink { sel: Sel::Newest, to: ShrinkTo::Zero, align: 0 },
+                Op::ShrinkSlice { sel: Sel::Newest, to: ShrinkTo::Half },
+                Op::ShrinkSlice { sel: Sel::Second, to: ShrinkTo::MinusOne },
+                Op::Dealloc { sel: Sel::Newest },
+                Op::Dealloc { sel: Sel::Second },
+                Op::Dealloc { sel: Sel::Oldest },
+                Op::Enter(Region::Scoped),
+                Op::Exit,
+            ];
+            vec![mk(
+                a,
+                d(4, 5),
+                params(&ALL_HANDLES, &[Ctor::TryNew], &[z]),
+                FaultMode::None,
+                nontrivial_c13,
+                "every enabled history over the alphabet up to the depth bound, per configuration x every handle kind (Bump/BumpScope, &, &&, WithoutDealloc, WithoutShrink, both nestings, dyn); non-trivial = contains a deallocate/shrink/shrink_slice or reclaimed / reallocated in place",
+                1000,
+            )]
+        }
+        "C05" => {
+            let a = vec![
+                al(24, 8),
+                al(600, 8),
+                Op::AllocRem { extra: 1, align: 1 },
+                Op::AllocRem { extra: 40, align: 32 },
+                Op::Typed { op: TypedOp::SliceU64(100), try_: true },
+                Op::Reserve { n: 64, try_: true },
+                Op::ReserveRem { extra: 1 },
+                Op::GrowRem { sel: Sel::Newest, extra: 1 },
+                Op::PrepSlice { elem: 8, min_cap: 40, commit: Commit::Half, rev: false, try_: true },
+                Op::Dealloc { sel: Sel::Newest },
+                Op::Enter(Region::Scoped),
+                Op::Enter(Region::Claim),
+                Op::Exit,
+                Op::ExitUnwind,
+                Op::Reset,
+                Op::ResetToStart,
+                Op::TryWith { mutable: false, ok: false, inner: Some((700, 8)), try_: true },
+            ];
+            let mut ps = params(&[Handle::Direct, Handle::Dyn], &[Ctor::TryNew, Ctor::Unallocated, Ctor::TryWithSize(1000), Ctor::TryWithCapacity(100, 32)], &[z, og2]);
+            let n = ps.len();
+            for i in 0..n {
+                if i % 3 == 0 {
+                    let mut p = ps[i];
+                    p.roundtrip = true;
+                    ps.push(p);
+                }
+            }
+            vec![mk(
+                a,
+                d(4, 5),
+                ps,
+                if thorough { FaultMode::Pairs } else { FaultMode::Single },
+                nontrivial_c05,
+                "every enabled history over the chunk-affecting alphabet up to the depth bound followed by drop (or into_raw/from_raw + drop), per configuration x constructor x handle x substrate, and for each history every base-allocator fault set of the stated size; non-trivial = more than one chunk was obtained",
+                200,
+            )]
+        }
+        "C07" => {
+            let a = vec![
+                al(24, 8),
+                al(3, 1),
+                Op::Alloc { size: 40, align: 32, zeroed: true },
+                Op::AllocRem { extra: 1, align: 1 },
+                Op::Typed { op: TypedOp::SliceU64(40), try_: true },
+                Op::Typed { op: TypedOp::AllocSliceCopyU8(200), try_: true },
+                Op::Typed { op: TypedOp::SliceOverflow, try_: true },
+                Op::Grow { sel: Sel::Newest, delta: 8, align: 0, zeroed: false },
+                Op::GrowRem { sel: Sel::Newest, extra: 1 },
+                Op::Shrink { sel: Sel::Newest, to: ShrinkTo::Half, align: 32 },
+                Op::Dealloc { sel: Sel::Newest },
+                Op::Reserve { n: 64, try_: true },
+                Op::ReserveRem { extra: 1 },
+                Op::Prep { size: 64, align: 8, commit: Commit::Half, rev: false },
+                Op::PrepSlice { elem: 8, min_cap: 40, commit: Commit::Half, rev: true, try_: true },
+                Op::AllocHuge { align: 1 },
+                Op::AllocHuge { align: 4096 },
+                Op::GrowHuge { sel: Sel::Newest },
+                Op::ReserveHuge { max: true },
+                Op::ReserveHuge { max: false },
+                Op::Enter(Region::Scoped),
+                Op::Enter(Region::Claim),
+                Op::Exit,
+                Op::TryWith { mutable: true, ok: true, inner: None, try_: true },
+            ];
+            vec![mk(
+                a,
+                d(4, 4),
+                params(if thorough { &[Handle::Direct, Handle::Dyn, Handle::WoShrinkWoDealloc] } else { &[Handle::Direct, Handle::Dyn] }, &[Ctor::TryNew, Ctor::Unallocated], &[z, og]),
+                if thorough { FaultMode::Pairs } else { FaultMode::Single },
+                nontrivial_c07,
+                "every enabled history over the try_/allocator-interface alphabet (incl. overflowing requests) up to the depth bound, and for each history every base-allocator fault set of the stated size (calls counted from arena construction); non-trivial = a base-allocator call was refused or more than one chunk was obtained",
+                200,
+            )]
+        }
+        "C12" => {
+            let a = vec![
+                Op::AllocRem { extra: 1, align: 1 },
+                Op::AllocRem { extra: 1, align: 16 },
+                Op::AllocRem { extra: 40, align: 32 },
+                Op::AllocRem { extra: 33, align: 256 },
+                Op::AllocRem { extra: 7, align: 4096 },
+                al(3, 1),
+                al(1000, 8),
+                al(5000, 64),
+                Op::Typed { op: TypedOp::SliceU64(100), try_: true },
+                Op::Typed { op: TypedOp::SizedA32, try_: false },
+                Op::Typed { op: TypedOp::AllocSliceCopyU8(500), try_: false },
+                Op::PrepSlice { elem: 32, min_cap: 9, commit: Commit::Full, rev: false, try_: true },
+                Op::PrepSlice { elem: 8, min_cap: 90, commit: Commit::Half, rev: true, try_: true },
+                Op::Prep { size: 640, align: 64, commit: Commit::Half, rev: false },
+                Op::Reserve { n: 700, try_: true },
+                Op::ReserveRem { extra: 1 },
+                Op::GrowRem { sel: Sel::Newest, extra: 1 },
+                Op::Enter(Region::Scoped),
+                Op::Exit,
+            ];
+            vec![mk(
+                a,
+                d(3, 4),
+                params(
+                    &[Handle::Direct, Handle::Dyn],
+                    &[Ctor::TryNew, Ctor::Unallocated, Ctor::TryWithCapacity(1, 1), Ctor::TryWithCapacity(100, 64), Ctor::TryWithCapacity(5000, 4096), Ctor::TryWithSize(0), Ctor::TryWithSize(3000)],
+                    &[z, og, og2],
+                ),
+                FaultMode::None,
+                nontrivial_c05,
+                "every enabled history over the chunk-creating alphabet up to the depth bound, per configuration x constructor (with_capacity / with_size / unallocated) x substrate (exact and over-granting); non-trivial = more than one chunk was obtained",
+                200,
+            )]
+        }
+        "C03" => {
+            let a = vec![
+                Op::Enter(Region::Scoped),
+                Op::Enter(Region::ScopedAligned(8)),
+                Op::Enter(Region::Guard),
+                Op::Enter(Region::GuardReset),
+                Op::Enter(Region::Checkpoint),
+                Op::Enter(Region::Claim),
+                Op::Enter(Region::Aligned(2)),
+                Op::Exit,
+                Op::ExitUnwind,
+                al(3, 1),
+                al(24, 8),
+                Op::AllocRem { extra: 1, align: 1 },
+                Op::Grow { sel: Sel::Newest, delta: 8, align: 0, zeroed: false },
+                Op::Dealloc { sel: Sel::Newest },
+                Op::TryWith { mutable: true, ok: false, inner: None, try_: false },
+                Op::TryWith { mutable: false, ok: false, inner: None, try_: false },
+                Op::Reset,
+                Op::ResetToStart,
+            ];
+            vec![mk(
+                a,
+                d(5, 6),
+                params(&[Handle::Direct], &[Ctor::TryNew, Ctor::Unallocated], &[z, og]),
+                FaultMode::None,
+                nontrivial_c03,
+                "every enabled (well-nested) history over scope kinds {scoped, scoped_aligned, guard drop, guard reset, checkpoint/reset_to, claim, aligned} x exits {return, unwind} x workload ops up to the depth bound; every closed scope is additionally re-run in a fresh scope (must need no base-allocator call); non-trivial = a scope/reset history that switched chunks, unwound or nested >= 2 scopes",
+                500,
+            )]
+        }
+        "C14" => {
+            let a = vec![
+                al(8, 8),
+                al(3, 1),
+                Op::AllocRem { extra: 1, align: 1 },
+                Op::Enter(Region::Claim),
+                Op::Enter(Region::Scoped),
+                Op::Exit,
+                Op::ExitUnwind,
+                Op::Orig(OrigOp::Allocate(8, 8)),
+                Op::Orig(OrigOp::Allocate(0, 1)),
+                Op::Orig(OrigOp::TryTyped),
+                Op::Orig(OrigOp::PanickingTyped),
+                Op::Orig(OrigOp::ZstTyped),
+                Op::Orig(OrigOp::GrowOld),
+                Op::Orig(OrigOp::ShrinkOld),
+                Op::Orig(OrigOp::DeallocOld),
+                Op::Orig(OrigOp::TryReserve(8)),
+                Op::Orig(OrigOp::PanickingReserve(8)),
+                Op::Orig(OrigOp::Prepare(8)),
+                Op::Orig(OrigOp::Stats),
+                Op::Orig(OrigOp::ClaimAgain),
+            ];
+            vec![mk(
+                a,
+                d(5, 6),
+                params(&[Handle::Direct, Handle::Dyn, Handle::WoDeallocWoShrink], &[Ctor::TryNew, Ctor::Unallocated], &[z]),
+                FaultMode::None,
+                nontrivial_c14,
+                "every enabled history interleaving operations on the claim guard (allocation, chunk growth, inner scopes, nested claims, exits by return/unwind) with operations on the claimed original (12 kinds) up to the depth bound; non-trivial = an operation on the claimed original was executed or a claim was ended explicitly",
+                500,
+            )]
+        }
+        "C18" => {
+            let mut a = vec![
+                al(1, 1),
+                al(3, 1),
+                al(6, 4),
+                Op::AllocRem { extra: 1, align: 1 },
+                Op::Dealloc { sel: Sel::Newest },
+                Op::Enter(Region::Scoped),
+                Op::Exit,
+                Op::ExitUnwind,
+            ];
+            for n in ALL_MIN_ALIGNS {
+                a.push(Op::Enter(Region::Aligned(n)));
+            }
+            for n in [1, 4, 16] {
+                a.push(Op::Enter(Region::ScopedAligned(n)));
+            }
+            vec![mk(
+                a,
+                d(5, 6),
+                params(&[Handle::Direct], &[Ctor::TryNew, Ctor::Unallocated], &[z]),
+                FaultMode::None,
+                nontrivial_c18,
+                "every enabled history nesting aligned::<N> / scoped_aligned::<N> / scoped (N over all supported alignments, outer alignment = every configuration's MIN_ALIGN) with allocations of sizes that are not multiples of N, chunk switches, deallocation and exits by return/unwind; non-trivial = an alignment region containing an allocation",
+                500,
             )]
         }
         _ => panic!("unknown property {prop}"),
